@@ -25,13 +25,17 @@ class DatasetAxes(Axes):
         self._ds = ds  # attached dataset
 
     def __setitem__(self, key, item):
+        if not isinstance(key, str):
+            key = list.__getitem__(self, key).name
+        pos = [ax.name for ax in self].index(key)
         super(DatasetAxes, self).__setitem__(key, item)
+        newaxis = list.__getitem__(self, pos)
         # also apply the change to the contained DimArrays
         for k in self._ds.keys():
             dima = self._ds[k]
             if key not in dima.dims: 
                 continue
-            dima.axes[key] = self[key]
+            dima.axes[key] = newaxis
 
     def __deepcopy__(self, memo):
         ' deepcopy interface otherwise fails '
